@@ -263,4 +263,71 @@ def finalReport (w : World) : Option LeakReport :=
     some { entries := (w.det.report finalReportPeriod).out, total := (w.det.leaksIn finalReportPeriod).length }
   else none
 
+/-- `FinalReport(toBeDeletedLeaks)`: the report is produced unless exactly the announced number
+    of blocks (those the caller is still going to delete) is outstanding -/
+def finalReportN (w : World) (toBeDeleted : Nat) : Option LeakReport :=
+  if w.det.totalMemoryLeaks finalCountPeriod != toBeDeleted then
+    some { entries := (w.det.report finalReportPeriod).out, total := (w.det.leaksIn finalReportPeriod).length }
+  else none
+
+/-! ## switches outside the tests -/
+
+def setOverloads (w : World) (b : Bool) : World := { w with overloads := b }
+
+/-- `turnOffNewDeleteOverloads()` / `turnOnDefaultNotThreadSafeNewDeleteOverloads()`: what
+    `areNewDeleteOverloaded()` answers afterwards is computed from the source -/
+def turnOffOverloads (w : World) : World := setOverloads w overloadsAfterTurnOff
+def turnOnOverloads (w : World) : World := setOverloads w overloadsAfterTurnOn
+
+/-- `destroyGlobalDetector()`: overloads off, detector deleted; the next `getGlobalDetector()`
+    constructs a new one -/
+def destroyGlobalDetector (w : World) : World :=
+  { (if destroyTurnsOverloadsOff then turnOffOverloads w else w) with det := Detector.init }
+
+/-! ## a test whose object allocates in its constructor / destructor
+
+`createTest` and `destroyTest` are calls of `runOneTestInCurrentProcess` between the pre and the
+post actions (regenerated order `runOneTestOrder`): what the constructor and the destructor of
+the `Utest` object (members of a TEST_GROUP) allocate is inside the leak window. -/
+
+/-- memory operations of a constructor / destructor: no checks, no declarations -/
+def execMem (w : World) : Cmd → World
+  | .alloc id size => doAlloc w id size
+  | .free id => doFree w id
+  | .realloc id newId size => doRealloc w id newId size
+  | .reallocFail id size => execCmd w (.reallocFail id size)
+  | .envSeq n => execCmd w (.envSeq n)
+  | _ => w
+
+def runMem (w : World) (cs : List Cmd) : World := cs.foldl execMem w
+
+structure TestObj where
+  ctor : List Cmd := []
+  test : Test := {}
+  dtor : List Cmd := []
+deriving Repr, Inhabited
+
+def rstepObj (t : TestObj) (w : World) : RStep → World
+  | .preActions => preTestAction w
+  | .createTest => runMem w t.ctor
+  | .runTest => runBody w t.test
+  | .destroyTest => runMem w t.dtor
+  | .postActions => postTestAction w
+
+def runOneTestObj (w : World) (t : TestObj) : World := runOneTestOrder.foldl (rstepObj t) w
+
+def runTestObj (w : World) (t : TestObj) : World := runOneTestObj (runOutside (clearObs w) t.test.before) t
+
+/-! ## a test run in a separate process (`-p`, `setRunInSeperateProcess`)
+
+`PlatformSpecificRunTestInASeperateProcess`: the child runs `runOneTestInCurrentProcess` (pre
+actions, test, post actions) on its copy of everything and exits with "did the failure count
+grow"; the parent only adds one failure when the child's exit status is not 0. -/
+
+def joinSeparate (parent child : World) : World :=
+  if child.failures > parent.failures then { parent with failures := parent.failures + 1 } else parent
+
+def runTestSeparate (w : World) (t : TestObj) : World :=
+  joinSeparate (runOutside (clearObs w) t.test.before) (runTestObj w t)
+
 end LeakPlugin
